@@ -11,6 +11,7 @@ def sh(cmd, cwd=None): return subprocess.run(cmd, shell=True, capture_output=Tru
 def clean(): return sh(f"git -C {REPO} status --porcelain").stdout.strip() == ""
 
 def ingest(wt, nid):
+    sh("git add -N src", cwd=wt)  # new files under src/ belong to the patch
     patch = sh("git diff -- src", cwd=wt).stdout
     assert patch.strip(), "no src change"
     r = sh("cargo test --offline 2>&1 | grep -E '^test result|FAILED|error(\\[|:)'", cwd=wt)
